@@ -22,14 +22,18 @@ Accepted(e) ==
   /\ IF i.r = "ok" /\ ConvH(i.ty, e.ty, <<>>, FUEL).r = "no" THEN Bad(<<"C03", "reported type is not the type of the elaborated term", "holes_opened", e.holes_opened, "has_hole", HasHole(e.elab) \/ HasHole(e.ty)>>) ELSE TRUE
   /\ IF ~SameModuloHoles(src, e.elab) THEN Bad(<<"C05", "elaboration is not the source with holes filled in">>) ELSE TRUE
   /\ IF HasHole(e.elab) THEN Bad(<<"C01", "accepted with an unfilled hole", "holes_opened", e.holes_opened>>) ELSE TRUE
+  \* the clauses below are judged independently: one observation may break several statements (a wrong step that ends stuck is
+  \* a C02 and a C01 observation), and every check filters by its own tag
   /\ LET so == IF Len(e.steps) > 0 THEN StepsOK(e.elab, e.steps, 1) ELSE [ok |-> TRUE, cur |-> e.end] IN
      IF ~so.ok THEN Bad(<<"C02", "evaluation step differs from the semantics", so.at>>)
-     ELSE IF e.endk = "fuel" THEN TRUE
-     ELSE IF Len(e.steps) = 0 /\ e.nsteps > 0 /\ e.nsteps <= 400 /\ ~Ident(StepN(e.elab, e.nsteps), e.end) THEN Bad(<<"C02", "final term differs from the semantics">>)
-     ELSE IF e.endk = "stuck" THEN
+     ELSE IF e.endk # "fuel" /\ Len(e.steps) = 0 /\ e.nsteps > 0 /\ e.nsteps <= 400 /\ ~Ident(StepN(e.elab, e.nsteps), e.end) THEN Bad(<<"C02", "final term differs from the semantics">>)
+     ELSE TRUE
+  /\ IF e.endk = "stuck" THEN
          (IF Step(e.end).r = "step" THEN Bad(<<"C01", "stuck although the semantics continues (a definition that is a value is available to its whole group)", "holes_opened", e.holes_opened>>)
           ELSE IF StuckReason(e.end) = "divzero" THEN TRUE
           ELSE Bad(<<"C01", "stuck", StuckReason(e.end), "holes_opened", e.holes_opened, "has_hole", HasHole(e.end)>>))
+     ELSE TRUE
+  /\ IF e.endk \in {"fuel", "stuck"} THEN TRUE
      ELSE IF Step(e.end).r = "step" \/ ~IsValue(e.end) THEN Bad(<<"C02", "reported as a value although it is not one">>)
      ELSE LET iv == Infer(e.end, <<>>, FUEL)
               \* the independent big-step semantics on the elaborated program (ground results of short runs)
